@@ -239,8 +239,9 @@ def ac2mp_poly(
     ).T
     # correct for exponential window
     if methodSy == "cor":
+        # the window exp(-t/(tau*dt)) adds 1/(tau*dt) of decay rate (tau is in samples)
         tau = -(nxseg - 1) / np.log(0.01)
-        lam_c = lam_c - 1 / tau
+        lam_c = lam_c + 1 / (tau * dt)
     fn = abs(lam_c) / (2 * np.pi)  # natural frequencies
     xi = -((np.real(lam_c)) / (abs(lam_c)))  # damping ratios
     # Complex mode shapes
